@@ -55,6 +55,12 @@ Example C11_example :
   sort_desc [69634; 0; 4294967295; 268471337; 69634] = [4294967295; 268471337; 69634; 69634; 0].
 Proof. repeat split; vm_compute; reflexivity. Qed.
 
+From CKC Require Import Model.Proj Proofs.ProjC11.
+(* the `sortp` line of the correspondence check is the constant `1 1 1 1` on ALL lists of words: non-increasing,
+   same multiset as the input, in-place form agrees (one model function), idempotent *)
+Theorem C11_projection : forall ws : list N, proj_sortp ws = [true; true; true; true].
+Proof. exact proj_sortp_const. Qed.
+
 Print Assumptions C11_order.
 Print Assumptions C11_compare.
 Print Assumptions C11_injective.
@@ -62,3 +68,4 @@ Print Assumptions C11_blank_below.
 Print Assumptions C11_sort.
 Print Assumptions C11_sort_unique.
 Print Assumptions C11_sort_slots.
+Print Assumptions C11_projection.
